@@ -258,11 +258,13 @@ func (lh *WorkerLoop) onNewConsensusRound(prevBlock interfaces.Block, prevBlockP
 	lh.logger.ConsensusTrace("starting a new consensus round", nil)
 
 	lh.leanHelixTerm = leanhelixterm.NewLeanHelixTerm(ctx, lh.logger, lh.config, lh.state, lh.electionTrigger, lh.onCommit, prevBlock, prevBlockProofBytes, canBeFirstLeader)
-	lh.logger.Debug("onNewConsensusRound() Calling ConsumeCacheMessages for H=%d", lh.state.Height())
-	lh.filter.ConsumeCacheMessages(lh.leanHelixTerm)
+	// announce the round before replaying cached messages: a replayed message may commit this height at once, which
+	// starts (and announces) the next round from inside ConsumeCacheMessages
 	if lh.onNewConsensusRoundCallback != nil {
-		lh.onNewConsensusRoundCallback(ctx, lh.state.Height(), prevBlock, canBeFirstLeader)
+		lh.onNewConsensusRoundCallback(ctx, current.Height(), prevBlock, canBeFirstLeader)
 	}
+	lh.logger.Debug("onNewConsensusRound() Calling ConsumeCacheMessages for H=%d", current.Height())
+	lh.filter.ConsumeCacheMessages(lh.leanHelixTerm)
 }
 
 func (lh *WorkerLoop) cleanupCurrentTerm() {
